@@ -127,6 +127,40 @@ def r3_orderings(ctx, F):
               "Chunk::clone no longer increments the reference count atomically", fn=cl)
 
 
+def r4_post_freeze_only_own_defs(ctx, F):
+    """frozen data is written after the freeze only by FrozenDef::post_freeze, and only for defs of the module being
+    frozen: the list the freezer keeps for it (Freezer.frozen_defs) receives only values this freezer has just
+    allocated (Freezer::reserve). A def that was already frozen lives in another, shared heap; registering it makes
+    Module::freeze rewrite its bytecode cell (an UnsafeCell behind `unsafe impl Sync`) while other threads run it."""
+    from kern import origins
+    pc = re.compile(r"(FrozenValueTyped::<'v, T>::new$|Option::<.*>::(unwrap\w*|expect)$|Try>::branch$)")
+    n = 0
+    for f in F.fns.values():
+        if f.crate != "starlark" or not any("Freezer::frozen_defs}" in st.text() for st in f.stmts):
+            continue
+        from kern import forward_locals, locals_in
+        recv = forward_locals(f, [st.lhs_local for st in f.stmts if "Freezer::frozen_defs}" in st.text()],
+                              pass_calls=re.compile(r"(RefCell::<T>::borrow_mut|DerefMut>::deref_mut|Deref>::deref)$"))
+        for c in f.calls:
+            if c.bb in f.cleanup or not re.search(r"Vec::<T, A>::(push|insert|extend\w*)$", c.name) \
+                    or not any(x in recv for x in locals_in(c.args[0])):
+                continue
+            n += 1
+            os_ = origins(f, c.args[-1], pass_calls=pc)
+            names = {o[1].name for o in os_ if o[0] == "call"}
+            fresh = any(re.search(r"freezer::Freezer::<'fv>::reserve$", x) for x in names)
+            foreign = sorted(short_fn(x) for x in names if not re.search(r"Freezer::<'fv>::reserve$", x)) + [
+                "parameter " + o[1] for o in os_ if o[0] == "param"]
+            ctx.check(fresh and not foreign, "C20.R4", "post-freeze-registration:" + short_fn(top_fn(F, f).qpath),
+                      "only a def allocated by this freezer (Freezer::reserve) is registered for post_freeze",
+                      "`%s` registers a value for FrozenDef::post_freeze that does not (only) come from this freezer's "
+                      "own reservation (%s): an already frozen def of another module would have its compiled body "
+                      "rewritten while that module is shared with other threads" % (short_fn(top_fn(F, f).qpath),
+                                                                                   foreign or "no reservation"),
+                      fn=f, line=c.line)
+    ctx.floor("C20.R4", "registrations into Freezer.frozen_defs", n, 1)
+
+
 def run(ctx):
     F = ctx.facts("core")
     r4_interior(ctx, F, prop_rule="C20.R1")
@@ -138,3 +172,4 @@ def run(ctx):
     ctx.info["unsafe_send_sync_impls"] = sorted("%s for %s" % (i["trait"].split("::")[-1], i["selfty"][:60]) for i in us)
     r2_statics(ctx, F)
     r3_orderings(ctx, F)
+    r4_post_freeze_only_own_defs(ctx, F)
